@@ -1,0 +1,74 @@
+//go:build verif
+
+package stateless
+
+import (
+	"context"
+
+	cmttypes "github.com/cometbft/cometbft/types"
+
+	"github.com/oasisprotocol/oasis-core/go/common/crypto/hash"
+	consensusAPI "github.com/oasisprotocol/oasis-core/go/consensus/api"
+	"github.com/oasisprotocol/oasis-core/go/consensus/api/transaction"
+	"github.com/oasisprotocol/oasis-core/go/consensus/cometbft/api"
+)
+
+// Exports of the package-private verification functions for the verification
+// harness (/verif, property C19). Only compiled with the `verif` build tag.
+
+// VerifVerifyBlock exposes verifyBlock.
+func VerifVerifyBlock(blk *consensusAPI.Block, lb *cmttypes.LightBlock) error {
+	return verifyBlock(blk, lb)
+}
+
+// VerifVerifyTransactions exposes verifyTransactions.
+func VerifVerifyTransactions(txs [][]byte, lb *cmttypes.LightBlock) error {
+	return verifyTransactions(txs, lb)
+}
+
+// VerifVerifyBlockResults exposes the pure verifyBlockResults.
+func VerifVerifyBlockResults(results *consensusAPI.BlockResults, resultsHash []byte, lb *cmttypes.LightBlock) (*api.BlockResultsMeta, error) {
+	return verifyBlockResults(results, resultsHash, lb)
+}
+
+// VerifVerifyTransactionProof exposes verifyTransactionProof.
+func VerifVerifyTransactionProof(proof *transaction.Proof, tx *transaction.SignedTransaction, lb *cmttypes.LightBlock) error {
+	return verifyTransactionProof(proof, tx, lb)
+}
+
+// VerifTransactionsWithProofs exposes transactionsWithProofs.
+func VerifTransactionsWithProofs(txs [][]byte) *consensusAPI.TransactionsWithProofs {
+	return transactionsWithProofs(txs)
+}
+
+// VerifStateRootFromMetaTx exposes stateRootFromMetaTx.
+func VerifStateRootFromMetaTx(metaTx []byte) (hash.Hash, error) {
+	return stateRootFromMetaTx(metaTx)
+}
+
+// VerifStateRootFromBlockTxs exposes stateRootFromBlockTxs.
+func VerifStateRootFromBlockTxs(txs [][]byte) (hash.Hash, error) {
+	return stateRootFromBlockTxs(txs)
+}
+
+// VerifVerifyBlockResults exposes the Core.verifyBlockResults method
+// (including the branch that skips verification at the latest trusted height).
+func (c *Core) VerifVerifyBlockResults(ctx context.Context, results *consensusAPI.BlockResults, lb *cmttypes.LightBlock) (*api.BlockResultsMeta, error) {
+	return c.verifyBlockResults(ctx, results, lb)
+}
+
+// VerifVerifyNextValidators exposes the Core.verifyNextValidators method.
+func (c *Core) VerifVerifyNextValidators(validators *consensusAPI.Validators, lb *cmttypes.LightBlock) error {
+	return c.verifyNextValidators(validators, lb)
+}
+
+// VerifVerifyParameters exposes the Core.verifyParameters method.
+func (c *Core) VerifVerifyParameters(ctx context.Context, params *consensusAPI.Parameters, lb *cmttypes.LightBlock) error {
+	return c.verifyParameters(ctx, params, lb)
+}
+
+// VerifFetchStateRoot exposes the Core.fetchStateRoot method (state root
+// resolution without the cache).
+func (c *Core) VerifFetchStateRoot(ctx context.Context, height int64) (hash.Hash, error) {
+	return c.fetchStateRoot(ctx, height)
+}
